@@ -20,6 +20,9 @@ pub struct CS {
     raw: Mutex<Option<SignalsInfo<WithRawSiginfo>>>,
     origin: Mutex<Option<SignalsInfo<WithOrigin>>>,
     flag: Arc<AtomicBool>,
+    /// a surviving handle of a fourth instance whose SignalsInfo was dropped in setup: the handle is
+    /// the last owner of that instance's registrations, slots and pipe
+    orphan_handle: Mutex<Option<signal_hook::iterator::Handle>>,
     #[allow(dead_code)]
     keep: Vec<Box<dyn std::any::Any + Send + Sync>>,
     ids: Mutex<Vec<reg::SigId>>,
@@ -111,7 +114,15 @@ pub fn build(p: CP) -> Scenario<Arc<CS>> {
         for _ in 0..pp.prefill_deliveries {
             sched::setup_raise(S1);
         }
-        Arc::new(CS { sig_only: Mutex::new(Some(so)), raw: Mutex::new(Some(raw)), origin: Mutex::new(Some(origin)), flag, keep, ids: Mutex::new(ids) })
+        let orphan_handle = if pp.mutator == 4 {
+            let fourth = SignalsInfo::<WithRawSiginfo>::new(&[S1]).unwrap();
+            let h = fourth.handle();
+            drop(fourth);
+            Some(h)
+        } else {
+            None
+        };
+        Arc::new(CS { sig_only: Mutex::new(Some(so)), raw: Mutex::new(Some(raw)), origin: Mutex::new(Some(origin)), flag, orphan_handle: Mutex::new(orphan_handle), keep, ids: Mutex::new(ids) })
     };
     let mutator = p.mutator;
     let m = ThreadSpec {
@@ -138,6 +149,11 @@ pub fn build(p: CP) -> Scenario<Arc<CS>> {
                 for _ in b.pending() {}
                 *s.sig_only.lock().unwrap() = Some(a);
                 *s.raw.lock().unwrap() = Some(b);
+            }
+            4 => {
+                // dropping the last owner of an instance whose SignalsInfo is already gone
+                let h = s.orphan_handle.lock().unwrap().take();
+                drop(h);
             }
             _ => {
                 // dropping an instance (unregisters under its own lock)
@@ -201,7 +217,7 @@ pub fn build(p: CP) -> Scenario<Arc<CS>> {
     };
     Scenario {
         name: p.name.to_string(),
-        opts: Opts { stale_reads: false, stale_depth: 2, max_spurious: 0, horizon: 60_000, log_ops: false, log_handler_ops: false, reduce: true, no_discipline: false, nest_value_t1: 0, post_points: false },
+        opts: Opts { stale_reads: false, stale_depth: 2, max_spurious: 0, horizon: 60_000, log_ops: false, log_handler_ops: false, reduce: true, no_discipline: false, nest_value_t1: 0, post_points: false, no_race_check: false, start_points: true },
         signals: vec![S1, S2],
         setup: Box::new(setup),
         threads: vec![m, d],
@@ -223,14 +239,14 @@ pub fn scenarios(tier: Tier) -> Vec<Item> {
     // few operations passes while anything that waits or loops does not
     let steps = 3 * (8 + 3 + 2 + 14);
     let mut v = Vec::new();
-    for (mi, mname) in ["registry", "iter_new_add_drop", "scans_and_recv", "instance_drop"].iter().enumerate() {
+    for (mi, mname) in ["registry", "iter_new_add_drop", "scans_and_recv", "instance_drop", "last_handle_drop"].iter().enumerate() {
         for full in [false, true] {
             if q && full && mi != 2 {
                 continue;
             }
             let name: &'static str = Box::leak(format!("all_actions_vs_{}{}", mname, if full { "_fullpipes" } else { "" }).into_boxed_str());
             v.push(item(
-                build(CP { name, full_pipes: full, mutator: mi as u8, deliveries: 2, bound_steps: if mi == 1 { steps + 2 } else { steps }, prefill_deliveries: 0 }),
+                build(CP { name, full_pipes: full, mutator: mi as u8, deliveries: 2, bound_steps: if mi == 1 || mi == 4 { steps + 3 * 7 } else { steps }, prefill_deliveries: 0 }),
                 b(2, 3),
                 "every built-in action installed; deliveries from another thread and nested (up to 2 deep in time) at every operation boundary of the mutator",
             ));
